@@ -155,7 +155,7 @@ def main(chk):
     mir = mirsym.dump_mir()
     native.build(); native.build('release')
     q = chk.tier == 'quick'
-    to = 90 if q else 900
+    to = 90 if q else 300
     jobs = []
     for n in ((1, 2, 3, 4) if q else (1, 2, 3, 4, 5, 6)):
         for name in ('SMA', 'WMA', 'SD', 'MAD', 'BB'):
